@@ -31,6 +31,10 @@ def _wc_programs():
     P['f3'] = {'steps': [{'reg': [['a', 0, 'fut', 'ret'], ['b', 1, 'fut', 'ret'], ['c', 2, 'fut', 'call']], 'ret': None}, {'reg': [], 'ret': None}]}
     P['two_waits'] = {'steps': [{'reg': [['a', 0, 'fut', 'ret']], 'ret': None}, {'reg': [['b', 1, 'fut', 'call']], 'ret': None}, {'reg': [], 'ret': 1}]}
     P['c2'] = {'steps': [{'reg': [['a', 0, 'child', 'ret'], ['b', 1, 'child', 'call']], 'ret': None}, {'reg': [], 'ret': None}]}
+    # the awaitables of a wait command the step builds itself: a child in there as the process and as its future at once
+    P['wait_both'] = {'steps': [{'pre': [1], 'reg': [['p', 1, 'oldchild', 'wait'], ['f', 1, 'oldchild', 'wait-fut'], ['g', 1, 'oldchild', 'wait-fut'], ['a', 0, 'fut', 'wait']], 'ret': None},
+                                {'reg': [], 'ret': None}]}
+    P['wait_both2'] = {'steps': [{'pre': [0], 'reg': [['f', 0, 'oldchild', 'wait-fut'], ['p', 0, 'oldchild', 'wait']], 'ret': None}, {'reg': [], 'ret': 2}]}
     return P
 
 
@@ -110,7 +114,11 @@ def gen_cases(tier, seed):
             yield {'kind': 'plain', 'name': name, 'program': prog, 'plan': plans.uniq(plan, 'q%d' % i), 'drain': True, 'listener': True}
     # (b) workchains
     for name, prog in sorted(_wc_programs().items()):
-        items = [(idx, kind) for st in prog['steps'] for _k, idx, kind, _h in st['reg']]
+        items = []
+        for st in prog['steps']:
+            for _k, idx, kind, _h in st['reg']:
+                if (idx, kind) not in items:  # (the same awaitable may be handed over under several keys)
+                    items.append((idx, kind))
         ref = wcprog.run_case({'program': prog, 'plan': [], 'drain': True})
         ns = ref['slots'] + 1
         wake = [(['complete', idx, ['value', 'v%d' % idx]] if kind == 'fut' else ['child', idx, 'resume']) for idx, kind in items]
